@@ -595,6 +595,75 @@ func edgePhase(r *ev.Run, e *etcdx.Etcd, rng *rand.Rand) {
 	r.Distinct("edge-phase")
 }
 
+// resetRacePhase: requesters hammer one allocator (no updater, so the physical part stands still)
+// while user resets to "same millisecond, logical slightly above the current one" arrive; with a
+// 1 ms save interval every reset also has to extend the stored window, i.e. it spends an etcd round
+// trip between validating the target and applying it.
+func resetRacePhase(r *ev.Run, e *etcdx.Etcd, rng *rand.Rand) {
+	for vi, saveIv := range []time.Duration{time.Millisecond, 3 * time.Second} {
+		w, err := tsow.NewWorld(e, fmt.Sprintf("/c01/rr%02d_%d_", r.Shard, vi), 1, saveIv, time.Millisecond)
+		if err != nil {
+			r.Inconclusive("world: %v", err)
+			return
+		}
+		m := w.Members[0]
+		if m.Campaign(true) != nil || m.Alloc.Initialize(0) != nil {
+			w.Close()
+			r.Inconclusive("reset race setup failed")
+			return
+		}
+		stop := make(chan struct{})
+		var wg sync.WaitGroup
+		for g := 0; g < 6; g++ {
+			wg.Add(1)
+			go func(g int) {
+				defer wg.Done()
+				for {
+					select {
+					case <-stop:
+						return
+					default:
+					}
+					w.TSO(g, m, uint32(1+g), 0)
+				}
+			}(g)
+		}
+		resets := r.Pick(1500, 12000)
+		if saveIv == time.Millisecond {
+			resets = r.Pick(400, 3000)
+		}
+		accepted := 0
+		for i := 0; i < resets; i++ {
+			ph, lg, _, ok := tso.VerifSnapshot(m.Alloc)
+			if !ok || ph.IsZero() {
+				continue
+			}
+			tl := lg + 1 + int64(rng.Intn(4))
+			if tl >= 1<<18-100 { // logical nearly used up: let the time advance once
+				time.Sleep(2 * time.Millisecond)
+				m.Alloc.UpdateTSO()
+				continue
+			}
+			if m.Alloc.SetTSO(tsoutil.GenerateTS(tsoutil.GenerateTimestamp(ph, uint64(tl)))) == nil {
+				accepted++
+			}
+		}
+		close(stop)
+		wg.Wait()
+		m.Resign()
+		r.Count("reset_race_resets", int64(resets))
+		r.Count("reset_race_resets_accepted", int64(accepted))
+		resp := w.Responses()
+		r.Count("reset_race_responses", int64(len(resp)))
+		if p := tsochk.Check(resp); p != nil {
+			r.Violation(p.Kind+":reset-race", p.What, map[string]interface{}{"problem": p, "save_interval": saveIv.String(), "resets": resets, "accepted": accepted})
+		}
+		w.Close()
+		r.Eval(1)
+		r.Distinct("reset-race|" + saveIv.String())
+	}
+}
+
 func probeFailpoints(e *etcdx.Etcd) bool {
 	w, err := tsow.NewWorld(e, "/c01/probe_", 1, 50*time.Millisecond, 50*time.Millisecond)
 	if err != nil {
@@ -631,6 +700,7 @@ func main() {
 	fpLive := probeFailpoints(e)
 	r.Set("clock_failpoints_effective", fpLive)
 	edgePhase(r, e, rng)
+	resetRacePhase(r, e, rng)
 	nw := r.Pick(6, 30)
 	for wi := 0; wi < nw; wi++ {
 		levelA(r, e, rng, wi, fpLive)
